@@ -128,6 +128,7 @@ Arith(st, op, a, b) ==
   ELSE IF op = "+" /\ a.t = "int" /\ b.t = "str" THEN Norm(st, StrV(ToStr(a) \o b.s))
   ELSE IF op = "+" /\ a.t = "list" /\ b.t = "list" THEN Norm(st, ListV(a.l \o b.l))
   ELSE IF op = "+" /\ a.t = "list" /\ b.t # "list" THEN Norm(st, ListV(Append(a.l, b)))
+  ELSE IF op = "+" /\ a.t \in {"int", "str", "bool", "flt"} /\ b.t = "list" THEN Thr(st, RtErrV("addlist"))     \* a list cannot be added to a scalar: an error of the operation (both operands have been evaluated)
   ELSE Norm(MarkOpen(st), OpenV)          \* kind combinations the control-flow properties do not speak about
 
 RECURSIVE MapGet(_, _, _)
